@@ -38,6 +38,13 @@ type keyCase struct {
 	Algorithm uint8
 	Key       []byte
 	OtherType uint8 // an additional digest type to try (any value)
+	// the state the DNSKEY object is in when KeyTag / ToDS are called: "" = a fresh struct literal;
+	// "rdlength" = a literal whose header carries the (stale) Rdlength value Rdlen; "decoded" = a
+	// record decoded from wire with the key PrevKey, whose fields are then overwritten; "packed" = a
+	// literal with PrevKey that went through PackRR once before the fields are overwritten
+	State   string
+	Rdlen   uint16
+	PrevKey []byte
 }
 
 func labelsOf(text string) (ref.Labels, error) {
@@ -82,11 +89,35 @@ func checkKey(c keyCase) error {
 	rdata := ref.DNSKEYRdata(c.Flags, c.Protocol, c.Algorithm, c.Key)
 	pbt.Note(append([]byte(c.Owner+"|"), rdata...), len(c.Key) >= 3,
 		lenClass(len(c.Key)), fmt.Sprintf("keylen-odd=%v", len(c.Key)%2 == 1), fmt.Sprintf("owner-labels=%d", min(len(owner), 3)),
-		fmt.Sprintf("owner-casevariant=%v", c.Owner != c.Owner2))
+		fmt.Sprintf("owner-casevariant=%v", c.Owner != c.Owner2), "object-state="+map[bool]string{true: "fresh", false: c.State}[c.State == ""])
 
 	mk := func(name string) *dns.DNSKEY {
-		return &dns.DNSKEY{Hdr: dns.RR_Header{Name: name, Rrtype: dns.TypeDNSKEY, Class: c.Class, Ttl: c.TTL},
+		k := &dns.DNSKEY{Hdr: dns.RR_Header{Name: name, Rrtype: dns.TypeDNSKEY, Class: c.Class, Ttl: c.TTL},
 			Flags: c.Flags, Protocol: c.Protocol, Algorithm: c.Algorithm, PublicKey: base64.StdEncoding.EncodeToString(c.Key)}
+		switch c.State {
+		case "rdlength":
+			k.Hdr.Rdlength = c.Rdlen
+		case "decoded", "packed":
+			// an object with a history: it held another key (other length, other fields) before
+			old := &dns.DNSKEY{Hdr: dns.RR_Header{Name: "old.example.", Rrtype: dns.TypeDNSKEY, Class: 1, Ttl: 1}, Flags: 256, Protocol: 3, Algorithm: 13,
+				PublicKey: base64.StdEncoding.EncodeToString(c.PrevKey)}
+			buf := make([]byte, 64+len(c.PrevKey))
+			off, err := dns.PackRR(old, buf, 0, nil, false)
+			if err != nil {
+				return k
+			}
+			if c.State == "decoded" {
+				rr, _, err := dns.UnpackRR(buf[:off], 0)
+				if err != nil {
+					return k
+				}
+				old = rr.(*dns.DNSKEY)
+			}
+			old.Hdr.Name, old.Hdr.Class, old.Hdr.Ttl = name, c.Class, c.TTL
+			old.Flags, old.Protocol, old.Algorithm, old.PublicKey = c.Flags, c.Protocol, c.Algorithm, k.PublicKey
+			return old
+		}
+		return k
 	}
 	k := mk(c.Owner)
 	wantTag := ref.KeyTag(rdata)
@@ -223,6 +254,18 @@ func genKey(t *rapid.T) keyCase {
 		}
 	default:
 		c.Key = rapid.SliceOfN(rapid.Byte(), n, n).Draw(t, "key")
+	}
+	switch rapid.IntRange(0, 5).Draw(t, "state") {
+	case 0:
+		c.State = "rdlength"
+		c.Rdlen = rapid.OneOf(rapid.SampledFrom([]uint16{1, 3, 4, 5, uint16(min(len(c.Key)+3, 65535)), uint16(min(len(c.Key)+4, 65535)), uint16(min(len(c.Key)+5, 65535)), 65535}), rapid.Uint16()).Draw(t, "rdlen")
+	case 1, 2:
+		c.State = rapid.SampledFrom([]string{"decoded", "packed"}).Draw(t, "statekind")
+		pn := rapid.OneOf(rapid.IntRange(0, 8), rapid.IntRange(0, len(c.Key)), rapid.IntRange(len(c.Key), len(c.Key)+40)).Draw(t, "prevlen")
+		c.PrevKey = make([]byte, pn)
+		for i := range c.PrevKey {
+			c.PrevKey[i] = byte(i*31 + pn)
+		}
 	}
 	c.OtherType = rapid.OneOf(rapid.SampledFrom([]uint8{0, 3, 5, 6, 255}), rapid.Uint8()).Draw(t, "dt")
 	return c
